@@ -61,6 +61,8 @@ func propIntensity(t *rapid.T) {
 	}
 	periodMs := int64(period) * 1000
 	var window []int64 // model times of restart-requiring failures
+	var realAt []int64 // real milliseconds since the start of the case, per entry of window
+	realStart := time.Now()
 	var now int64
 	var hist []string
 	aged := false
@@ -110,9 +112,15 @@ func propIntensity(t *rapid.T) {
 		// model
 		edge := false
 		count := 1
-		for _, w := range window {
+		realNow := time.Since(realStart).Milliseconds()
+		for i, w := range window {
+			// the production code reads the real clock: the true age of a restart is the generated
+			// (virtual) age plus the real time that has passed since - milliseconds normally,
+			// much more on a busy machine. A decision is only judged when the whole interval of
+			// possible ages lies on one side of the period.
 			age := now - w
-			if age >= periodMs-60 && age <= periodMs+60 {
+			ageMax := age + (realNow - realAt[i]) + 60
+			if age-60 <= periodMs && periodMs <= ageMax {
 				edge = true
 			}
 			if age <= periodMs {
@@ -122,6 +130,7 @@ func propIntensity(t *rapid.T) {
 			}
 		}
 		window = append(window, now)
+		realAt = append(realAt, realNow)
 		exceeded := count > intensity
 		e.Die(victim.PID, suplab.ErrAbnormal)
 		if e.Problem != "" {
